@@ -59,7 +59,7 @@ if ok:
         try:
             for p in props:
                 t0 = time.time()
-                rc, o = sh(f"/verif/check {p} --tier quick")
+                rc, o = sh(f"SYMX_NO_EVIDENCE=1 /verif/check {p} --tier quick")
                 viol = [l for l in o.splitlines() if l.startswith("VIOLATION")]
                 first = [l.strip() for l in o.splitlines() if l.strip().startswith("config=")][:2]
                 results[p] = dict(exit=rc, violations=len(viol), first=[f[:300] for f in first], wall_s=round(time.time() - t0, 1),
